@@ -800,6 +800,24 @@ class Interp:
             return True
         if isinstance(p, ast.MatchSingleton):
             return subj is p.value
+        if isinstance(p, ast.MatchClass) and not p.kwd_patterns and len(p.patterns) <= 1:
+            # class pattern `str()`, `int()`, `MineralPhase()`, `str(x)`: an isinstance test (the single positional sub-pattern of the
+            # builtin types binds the subject itself)
+            cls = self.ev(p.cls, env)
+            r = self.np.b_isinstance(p, subj, cls)
+            if not isinstance(r, bool):
+                return None
+            if r and p.patterns:
+                return self.match_pattern(p.patterns[0], subj, env)
+            return r
+        if isinstance(p, ast.MatchSequence) and isinstance(subj, (list, tuple)) and not any(isinstance(q, ast.MatchStar) for q in p.patterns):
+            if len(subj) != len(p.patterns):
+                return False
+            for q, x in zip(p.patterns, subj):
+                r = self.match_pattern(q, x, env)
+                if not r:
+                    return r
+            return True
         raise Unsupported(f"match pattern {type(p).__name__}", p)
 
     # --- If with symbolic guards
@@ -1290,7 +1308,11 @@ class Interp:
         if isinstance(n.op, ast.Invert):
             if isinstance(v, Mask):
                 return Mask([c.negate() for c in v.conds])
-            if isinstance(v, (int, bool)):
+            if isinstance(v, Guard):
+                return v.negate()
+            if isinstance(v, bool):
+                return not v
+            if isinstance(v, int):
                 return ~v
         raise Unsupported("unary op", n)
 
@@ -1447,6 +1469,8 @@ class Interp:
         if isinstance(container, Opaque):
             return container
         if isinstance(container, dict):
+            if isinstance(item, Opaque):
+                return item
             h = _hashable(item)
             if h in container:
                 return True
@@ -1568,6 +1592,13 @@ class Interp:
                     return a >> b
             except ZeroDivisionError:
                 raise RaiseSig(ExcVal("ZeroDivisionError", node=node))
+        if name in ("BitAnd", "BitOr", "BitXor") and (isinstance(a, (Mask, Guard)) or isinstance(b, (Mask, Guard))
+                                                     or (isinstance(a, np.ndarray) and a.dtype == object and any(isinstance(x, (Guard, bool, np.bool_)) for x in a.flat))):
+            # boolean arrays / symbolic booleans combined with & | : the logical connectives
+            if name == "BitAnd":
+                return self.np.np_logical_and(a, b)
+            if name == "BitOr":
+                return self.np.np_logical_or(a, b)
         if isinstance(a, MaskLoad) or isinstance(b, MaskLoad):
             # elementwise arithmetic on rows selected by a data-dependent mask: operate on every row, keep the mask
             ma, mb = (a if isinstance(a, MaskLoad) else None), (b if isinstance(b, MaskLoad) else None)
@@ -1680,6 +1711,13 @@ class Interp:
                 self.havocs.append((k, v if not isinstance(v, np.ndarray) else v.copy(), self.loc(n) if n is not None else "", base, idx))
                 return v
             return self.opaque("subscript with a data-dependent (opaque) index", n)
+        if isinstance(idx, slice) and any(isinstance(b_, SymIdx) for b_ in (idx.start, idx.stop, idx.step)) and isinstance(base, (np.ndarray, SymArr)):
+            # a slice whose bounds depend on the data: an array of data-dependent length
+            snap = base
+            if isinstance(base, SymArr):
+                snap = SymArr(base.op, base.args)
+                snap.mods = list(base.mods)
+            return SymArr("slice", (snap, idx.start, idx.stop, idx.step))
         if isinstance(idx, SymIdx) and isinstance(base, SymIdx):
             return SymIdx("compose", (base, idx))
         if isinstance(idx, SymIdx) and isinstance(base, (np.ndarray, SymArr)):
@@ -1708,6 +1746,8 @@ class Interp:
             except TypeError as ex:
                 raise RaiseSig(ExcVal("TypeError", args=(str(ex),), node=n))
         if isinstance(base, dict):
+            if isinstance(idx, Opaque):
+                return idx
             k = _hashable(idx)
             if k in base:
                 return base[k]
